@@ -97,7 +97,7 @@ def gen_call(lib, k, call):
     D, S, A, Pn = [], [], [], []     # declarations, setup, actual args, prints
     for p in f["params"][:v["nparams"]]:
         kd, n = p["kind"], p["name"]
-        T = Ti if p.get("T") == "ArgType" else p.get("T")
+        T = ir.tsub(p.get("T"), f, Ti)
         T = gtypes.get(n, T)
         vn = "%s_%d" % (n, k)
         if kd == "val":
@@ -158,6 +158,8 @@ def gen_call(lib, k, call):
     if call.get("generic"):
         name = v["f_generic"] if call.get("via", "generic") == "generic" else v["f_specific"] + call["generic"]["function_suffix"]
     r = f["ret"]
+    if "T" in r:
+        r = dict(r, T=ir.tsub(r["T"], f, Ti))
     L = ["  block"]
     if f.get("ctor"):
         L += ["    call vf_mark(%d)" % k]
@@ -171,7 +173,10 @@ def gen_call(lib, k, call):
         return L
     if f.get("cls"):
         name = "%s%%%s" % (call["obj"], lib_un_camel(f["name"]))
-    if r["kind"] in ("val", "ptr_scalar"):
+    ptr_default = r["kind"] == "ptr_scalar" and r.get("deref", "scalar") != "scalar"
+    if ptr_default:
+        D.append("%s, pointer :: vfret" % ftype(r["T"]))        # documented default for a native pointer result
+    elif r["kind"] in ("val", "ptr_scalar"):
         D.append("%s :: vfret" % ftype(r["T"]))
     elif r["kind"] in ("cstr", "str_val", "str_cref", "str_ptr_own"):
         D.append("character(len=:), allocatable :: vfret")
@@ -190,7 +195,7 @@ def gen_call(lib, k, call):
         L.append("    call %s(%s)" % (name, ", ".join(A)))
     elif r["kind"] in ("cls_ptr", "cls_val"):
         L.append("    %s = %s(%s)" % (call["res_obj"], name, ", ".join(A)))
-    elif r["kind"] == "arr_ptr" and r["deref"] == "pointer":
+    elif ptr_default or (r["kind"] == "arr_ptr" and r["deref"] == "pointer"):
         L.append("    vfret => %s(%s)" % (name, ", ".join(A)))
     else:
         L.append("    vfret = %s(%s)" % (name, ", ".join(A)))
